@@ -259,6 +259,15 @@ def iter_dump(path, k, n):
             yield ''.join(body)
 
 
+def _exact_threshold(s):
+    """On-threshold inputs whose floating-point evaluation is exact in IEEE-754 double arithmetic, so that the statement's
+    "within" (<=) is decidable for the implementation too: two atoms of the SAME element, the first at the origin, the second
+    on the x axis, fudge factor 1: distance = sqrt(x*x) = x and threshold = 0.5 * (r + r) * 1 = r are the same double."""
+    at = s['atoms']
+    return (len(at) == 2 and s['fn'] == 1 and s['fd'] == 1 and at[0]['el'] == at[1]['el']
+            and (at[0]['x'], at[0]['y'], at[0]['z'], at[1]['y'], at[1]['z']) == (0, 0, 0, 0, 0))
+
+
 def _replay_chunk(args):
     """TAB states -> real MakeBonds.run_system; the worker reads its share of the dump itself and returns a summary"""
     from . import tlaval
@@ -278,7 +287,9 @@ def _replay_chunk(args):
         for x in st['sens']:
             out['tab_sens'][x] = out['tab_sens'].get(x, 0) + 1
         got = run_real(s, rng)
-        if exp['near']:
+        if exp['near'] and _exact_threshold(s):
+            out['near']['judged_exact'] = out['near'].get('judged_exact', 0) + 1      # falls through to the comparison
+        elif exp['near']:
             # a pair exactly ON the threshold: the statement says bonded (the model checks that); what the floating-point
             # code does is an observation, not a verdict
             ne = len(exp['edges'])
@@ -1100,6 +1111,9 @@ def run(tier, seed, ev, vd):
         'recorded distance attributes are converted to integer pm^2 with relative tolerance 1e-6',
         'reference blocks have unique atom names and at least one atom',
         'atoms always have a position',
+        'pairs exactly on the threshold are judged only in the class where IEEE-754 double arithmetic is exact (same element, '
+        'fudge 1, first atom at the origin, second on the x axis: sqrt(x*x) = x = 0.5*(r+r)); all other on-threshold pairs are '
+        'reported as an observation',
         'reader (BondsRead): serial numbers of the atoms read are unique; alternate locations are not combined with excluded '
         'residues or hydrogens; the order of the molecules the reader returns and the interleaving of merged molecules are not judged',
         'the fall-back warning count (one per residue, documented by make_bonds) is judged for real structures only',
@@ -1151,6 +1165,8 @@ def run(tier, seed, ev, vd):
                     by['replay-mismatch: (more)'] = by.get('replay-mismatch: (more)', 0) + 1
             if part['sample']:
                 ev.sample({'kind': 'TAB state replayed into MakeBonds.run_system', 'state': part['sample']})
+        if not near.get('judged_exact'):
+            raise tlc.MachineryError('no on-threshold state of the exactly representable class was replayed')
         if seen != res.distinct or 2 * pending != res.distinct or replayed + near['states'] != pending or not replayed:
             raise tlc.MachineryError('dump: %d states read, %d pending, %d replayed, %d on a threshold; TLC reports %d states' % (
                 seen, pending, replayed, near['states'], res.distinct))
